@@ -644,6 +644,12 @@ class Ev:
         if isinstance(v, ArrV) and name == "shape":
             dims = [sp.Symbol(f"dim{i}", positive=True, integer=True) for i in range(v.batch)]
             return Tup([sp.Integer(x) for x in v.shape] + dims if v.batch_last else dims + [sp.Integer(x) for x in v.shape])
+        if isinstance(v, ArrV) and name == "T" and len(v.shape) == 1 and v.batch == 1:
+            # (grid, n) -> (n, grid): iterating it gives the n grid vectors
+            out_ = ArrV(1, v.shape, v.fill, dict(v.cells), batch_last=not v.batch_last)
+            if getattr(v, "unordered_axes", None):
+                out_.unordered_axes = set(v.unordered_axes)
+            return out_
         if isinstance(v, ArrV) and name == "T" and len(v.shape) == 2 and v.batch == 0:
             return ArrV(0, v.shape[::-1], v.fill, {(j, i): x for (i, j), x in v.cells.items()})
         if isinstance(v, ArrV) and name == "shape" and False:
@@ -1428,6 +1434,22 @@ class Ev:
                 out = ArrV(0, shape, res.fill)
                 for key_s, key_d in zip(itertools.product(*[range(d) for d in res.shape]), itertools.product(*[range(d) for d in shape])):
                     out.cells[key_d] = res.get(key_s)
+                return out
+            if any(isinstance(i, OpaquePerm) for i in items):
+                # one constant axis re-ordered by a data-dependent permutation: the same entries, each once, in an order that is not known;
+                # kept in storage order and flagged, so that only order-insensitive statements about that axis can be made
+                pos = [j for j, i in enumerate(items) if isinstance(i, OpaquePerm)]
+                if len(pos) != 1 or len(items) != base.batch + len(base.shape) or base.batch_last:
+                    raise self.err("indexing with a data-dependent permutation in this position", n, mod)
+                ax = pos[0] - base.batch
+                if ax < 0 or items[pos[0]].n != base.shape[ax]:
+                    raise RaisedV("IndexError", f"{mod.rel}:{getattr(n, 'lineno', 0)}" if mod else "")
+                plain = list(items)
+                plain[pos[0]] = SliceV(None, None, None)
+                out = self.subscript(base, Tup(plain, "tuple"), n, mod)
+                if isinstance(out, ArrV):
+                    kept = [j for j, i in enumerate(plain[base.batch:]) if isinstance(i, (SliceV, Tup))]
+                    out.unordered_axes = set(getattr(out, "unordered_axes", set())) | {kept.index(ax)}
                 return out
             paired = _paired_fancy(base, items, self, n, mod)
             if paired is not None:
@@ -4100,6 +4122,13 @@ class Sentinel:
 LIB["object"] = lambda ev, a, k, n, mod: Sentinel()
 
 
+class OpaquePerm:
+    """a data-dependent permutation of 0..n-1 (argsort of a vector of expressions)"""
+
+    def __init__(self, n):
+        self.n = n
+
+
 def lib_opaque_order(tag):
     """numpy.sort / numpy.argsort of a symbolic vector: a reordering decided by the vector's own values"""
     def f(ev, a, k, n, mod):
@@ -4121,6 +4150,9 @@ def lib_opaque_order(tag):
                 else:
                     out.cells[key] = sp.Function("KTH_SMALLEST")(sp.Integer(key[ca]), *[as_sym(c) for c in lane])
             return out
+        if isinstance(x, ArrV) and tag == "ARGSORT" and not x.batch and len(x.shape) == 1:
+            # the permutation that sorts a vector of expressions: which one depends on the data; indexing with it keeps every entry exactly once
+            return OpaquePerm(x.shape[0])
         if isinstance(x, ArrV) or not is_sym(as_sym(x)):
             raise ev.err(f"numpy.{tag.lower()} of a small array is not modelled", n, mod)
         return sp.Function(tag)(as_sym(x))
